@@ -579,8 +579,37 @@ def exmodCli (cfg : Cfg) (env : Env) : M Unit := do
   | [e] => exmodStr cfg env e false
   | _ => raise .assertion
 
+/-! ## the domain of the confinement theorem (`C20.confined_partial`), as a decidable predicate -/
+
+/-- `mod_name` / `name` as `emit_file_on_hierarchy` derives them from the key -/
+def Item.modName (it : Item) : Str := (rpartition it.key ['.']).1
+def Item.name (it : Item) : Str := (rpartition it.key ['.']).2.2
+
+/-- an item whose key was stripped at a component boundary:
+    * the directory derived from the key is relative (`mod_name` does not begin with `.` or `/`);
+    * the original path is not cut by `relative_filename_path[len(module_name_as_path + sep):]`;
+    * first phase (the folder's `__init__`): the original path is the node's own absolute file and the derived name is
+      still the node's name (what `[len(module_name) + 1:]` breaks when a name merely *starts with* the module name). -/
+def itemOk (it : Item) : Bool :=
+  !isAbs (replace it.modName ['.'] ['/']) &&
+  !startsWith it.orig (replace it.moduleName ['.'] ['/'] ++ ['/']) &&
+  (it.fromFile || (it.orig == it.file && isAbs it.file && it.name == it.node))
+
+/-- `new_module_name` of the run -/
+def Cfg.newModuleName (cfg : Cfg) : Str := newModuleNameOf cfg (rpartition cfg.module ['.']).1
+
 /-- the trace of a run from an initial file system -/
 def run (cfg : Cfg) (env : Env) (fs : FS) : Res Unit := exmodCli cfg env fs
 def trace (cfg : Cfg) (env : Env) (fs : FS) : List Effect := (run cfg env fs).trace
+
+/-- hypotheses of `C20.confined_partial`:
+    the output directory is an absolute path without trailing slash whose parent exists; the new module name is relative
+    and the output directory's dotted path does not end with it (else `mod_path = output_directory` and
+    `dirname(mod_path)/__init__.py` is touched); package names give relative directories; every item of the run is `itemOk` -/
+def inDomain (cfg : Cfg) (env : Env) (fs : FS) : Bool :=
+  isAbs cfg.out && cfg.out.getLast? != some '/' && fs.isdir (dirname cfg.out) &&
+  !isAbs cfg.newModuleName && !endsWith (replace cfg.out ['/'] ['.']) cfg.newModuleName &&
+  env.allPackages.all (fun p => !isAbs (replace p ['.'] ['/'])) &&
+  (run cfg env fs).items.all itemOk
 
 end Exmod
